@@ -23,9 +23,14 @@
    instantiated as a REPL session and run on the real interpreter with the cache on and off. *)
 EXTENDS Integers, Sequences, FiniteSets, TLC, Json, GrolPrims
 
-CONSTANTS MaxOps, ExemptOnlyTopLevel, ResetOnRedefinition, EmitOn
+CONSTANTS MaxOps, ExemptOnlyTopLevel, ResetOnRedefinition,
+          MissPropagates,    \* TRUE: a caller of an uncacheable function is uncacheable too (FALSE on the pinned tree:
+                             \*       'g=func(){x}; f=func(){g()}' cached f)
+          ZeroSignDistinct,  \* TRUE: a -0.0 argument is never used as a cache key (FALSE: f(0.0) and f(-0.0) shared an entry)
+          EmitOn
 
-Kinds == {"pure", "lower", "upper", "callee", "print", "error", "impure"}
+\* "wraplower" calls f_lower (which reads the global g); "inv" is x => 1/x called with 0.0 (a = 1) or -0.0 (a = 2)
+Kinds == {"pure", "lower", "upper", "callee", "print", "error", "impure", "wraplower", "inv"}
 Caps  == {"lower", "upper", "func"}
 Args  == {1, 2}
 
@@ -50,6 +55,8 @@ Truth(kind, a) ==
     [] kind = "print"  -> <<a, TRUE>>
     [] kind = "error"  -> <<-1, FALSE>>
     [] kind = "impure" -> <<a + ticks + 1, FALSE>>
+    [] kind = "wraplower" -> <<a + g, FALSE>>
+    [] kind = "inv"    -> <<IF a = 1 THEN 1000 ELSE -1000, FALSE>>   \* +Inf / -Inf
 
 \* does the implementation store the result of this call?
 Stored(kind) ==
@@ -59,8 +66,13 @@ Stored(kind) ==
     [] kind = "callee" -> TRUE           \* function-valued outer variables are exempt (top level)
     [] kind = "error"  -> FALSE          \* errors are never stored
     [] kind = "impure" -> FALSE          \* DontCache extension
+    [] kind = "wraplower" -> ~MissPropagates
+    [] kind = "inv"    -> TRUE
 
-Lookup(fn, a) == {e \in cache : e.fn = fn /\ e.arg = a}
+\* 0.0 and -0.0 are equal as cache keys (Go map key equality)
+SameKey(fn, a, b) == a = b \/ (fn = "inv" /\ ~ZeroSignDistinct)
+Lookup(fn, a) == IF fn = "inv" /\ a = 2 /\ ZeroSignDistinct THEN {}
+                 ELSE {e \in cache : e.fn = fn /\ SameKey(fn, e.arg, a)}
 
 Log(op) == hist' = Append(hist, op)
 
@@ -70,7 +82,8 @@ CallF(kind, a) ==
          t   == Truth(kind, a)
          obs == IF hit # {} THEN LET e == CHOOSE e \in hit : TRUE IN <<e.val, e.out>> ELSE t
      IN /\ good' = (good /\ obs = t)
-        /\ cache' = IF hit = {} /\ Stored(kind) THEN cache \cup {[fn |-> kind, arg |-> a, val |-> t[1], out |-> t[2]]} ELSE cache
+        /\ cache' = IF hit = {} /\ Stored(kind) /\ ~(kind = "inv" /\ a = 2 /\ ZeroSignDistinct)
+                    THEN cache \cup {[fn |-> kind, arg |-> a, val |-> t[1], out |-> t[2]]} ELSE cache
   /\ ticks' = IF kind = "impure" THEN ticks + 1 ELSE ticks
   /\ UNCHANGED <<g, cst, hver>>
   /\ Log([op |-> "call", kind |-> kind, a |-> a])
@@ -94,6 +107,8 @@ Dropped == IF ResetOnRedefinition THEN {} ELSE cache
 
 MutateG   == Len(hist) < MaxOps /\ g' = 1 - g /\ UNCHANGED <<cst, hver, ticks, cache, good>> /\ Log([op |-> "mutate"])
 RedefH    == Len(hist) < MaxOps /\ hver' = 3 - hver /\ cache' = Dropped /\ UNCHANGED <<g, cst, ticks, good>> /\ Log([op |-> "redefh"])
+\* the same redefinition made from inside a function that never read h before (first write through a new reference)
+RedefHInside == Len(hist) < MaxOps /\ hver' = 3 - hver /\ cache' = Dropped /\ UNCHANGED <<g, cst, ticks, good>> /\ Log([op |-> "redefhinside"])
 RedefConst == Len(hist) < MaxOps /\ cst' = 30 - cst /\ cache' = Dropped /\ UNCHANGED <<g, hver, ticks, good>> /\ Log([op |-> "redefconst"])
 
 Emit == EmitOn => EmitLine(ToJson([h |-> hist']))
@@ -101,7 +116,7 @@ Emit == EmitOn => EmitLine(ToJson([h |-> hist']))
 Next ==
   /\ \/ \E k \in Kinds, a \in Args : CallF(k, a)
      \/ \E c \in Caps, v \in {1, 2}, a \in {1} : CallClosure(c, v, a)
-     \/ MutateG \/ RedefH \/ RedefConst
+     \/ MutateG \/ RedefH \/ RedefHInside \/ RedefConst
   /\ (Len(hist') = MaxOps) => Emit
 
 Spec == Init /\ [][Next]_vars
@@ -109,5 +124,5 @@ Spec == Init /\ [][Next]_vars
 ObsCorrect == good
 \* a stored entry is what re-running the call now would produce (the stronger, state-based form)
 HitSound == \A e \in cache :
-              IF e.fn \in Kinds THEN <<e.val, e.out>> = Truth(e.fn, e.arg) ELSE TRUE
+              IF e.fn \in Kinds \ {"inv"} THEN <<e.val, e.out>> = Truth(e.fn, e.arg) ELSE TRUE
 =============================================================================
